@@ -48,6 +48,10 @@ macro_rules! drive { ($uni:expr, $sh:expr, $case:expr) => {{
     let uni = $uni; let sh: Arc<Shared> = $sh;
     for i in 0..sh.items.len() { let _ = uni.send(i as u32); }
     tokio::time::sleep(Duration::from_millis($case.get("tclose", 0) as u64)).await;
+    // closing again: a bounded close that may time out (`tpre` ms), or a programmatic cancel_all_streams(), precedes the unbounded close
+    let tpre = $case.get("tpre", 0) as u64;
+    if tpre > 0 { let _ = uni.close(Duration::from_millis(tpre)).await; }
+    if $case.get("precancel", 0) == 1 { uni.channel.cancel_all_streams(); }
     let closed = uni.close(Duration::ZERO).await;
     let done_at_close = sh.done.load(SeqCst);
     tokio::time::sleep(Duration::from_millis(1_000_000)).await;
